@@ -54,6 +54,10 @@ func rsJudgeTrace(trace string, startUnix, endUnix int64) rsVerdict {
 	var storedSalts []int64
 	needAck := map[uint64]bool{}
 	acked := map[uint64]bool{}
+	// a message that is delivered again (the same msg_id in a later message or container: the server has not seen
+	// its acknowledgement) is answered again: deliveries and namings are counted
+	needCnt := map[uint64]int{}
+	ackCnt := map[uint64]int{}
 	sendsOf := map[int]int{}
 	rejectsOf := map[int]int{}
 	returnsOf := map[int]int{}
@@ -70,6 +74,7 @@ func rsJudgeTrace(trace string, startUnix, endUnix int64) rsVerdict {
 	handle = func(s rsSent) {
 		if s.seq%2 == 1 {
 			needAck[s.mid] = true
+			needCnt[s.mid]++
 		}
 		d := s.desc
 		switch {
@@ -232,6 +237,7 @@ func rsJudgeTrace(trace string, startUnix, endUnix int64) rsVerdict {
 					for _, id := range strings.Split(p[6], "+") {
 						u, _ := strconv.ParseUint(id, 10, 64)
 						acked[u] = true
+						ackCnt[u]++
 						if plainIDs[u] && !needAck[u] {
 							fail(&v.plain, "the client acknowledged message %d, which only a plain-text frame carried: it processed the frame's content", u)
 						}
@@ -309,6 +315,7 @@ func rsJudgeTrace(trace string, startUnix, endUnix int64) rsVerdict {
 				for _, id := range strings.Split(p[2], "+") {
 					u, _ := strconv.ParseUint(id, 10, 64)
 					acked[u] = true
+					ackCnt[u]++
 				}
 			}
 			if p[1] == "q" {
@@ -370,6 +377,11 @@ func rsJudgeTrace(trace string, startUnix, endUnix int64) rsVerdict {
 	for id := range needAck {
 		if !acked[id] {
 			fail(&v.c10, "content-related server message %d was never acknowledged", id)
+		}
+	}
+	for id, n := range needCnt {
+		if acked[id] && ackCnt[id] < n {
+			fail(&v.c10, "content-related server message %d was delivered %d times and named by %d acknowledgement(s): a delivery was not answered", id, n, ackCnt[id])
 		}
 	}
 	return v
